@@ -140,4 +140,50 @@ theorem epa3_vertexVertex_origins (supp1 supp2 : V3 K → V3 K) (fuel : Nat) (v0
     letI := fieldNum K sq
     epa3ClosestPoints supp1 supp2 fuel [v0] = .some ⟨0, 0, 0⟩ ⟨0, 0, 0⟩ ⟨0, 1, 0⟩ .vertexVertex := rfl
 
+/-- **`contact_support_map_support_map` (3-D, EPA route) returns a self-consistent contact whose depth never exceeds the
+true overlap along `normal1`** (unit rotation; after GJK reported `Intersection` on a simplex of dimension ≥ 1):
+`dist = (pos12·point2 - point1)·normal1`, `pos12.rot normal2 = -normal1`, `normal1` is a unit vector or zero, the
+witnesses are the `Epa3Out` combinations of support points, and `-dist ≤ H` for every bound `H` of `(x1 - x2)·normal1`
+over the two shapes (unless both witnesses are the frame origins: the degenerate-start finding). -/
+theorem contactFromEpa3_consistent (hs : LawfulSqrt sq) (pos12 : Iso3 K) (hu : Unit3 pos12)
+    (S1 S2 : V3 K → Prop) (supp1 supp2 : V3 K → V3 K)
+    (h1 : ∀ d, S1 (supp1 d)) (h2 : ∀ d, S2 (supp2 d)) (fuel : Nat) (simplex : List (CSOPoint3 K))
+    (hsim : ∀ v ∈ simplex, CsoOf3 S1 S2 v) (hlen : 2 ≤ simplex.length) (c : Contact3 K)
+    (hr : letI := fieldNum K sq; contactFromEpa3 pos12 supp1 supp2 fuel simplex = some (some c)) :
+    letI := fieldNum K sq
+    Epa3Out sq S1 S2 c.point1 (pos12.act c.point2) c.normal1 ∧
+    c.dist = ((pos12.act c.point2).x - c.point1.x) * c.normal1.x + ((pos12.act c.point2).y - c.point1.y) * c.normal1.y +
+      ((pos12.act c.point2).z - c.point1.z) * c.normal1.z ∧
+    pos12.rot c.normal2 = c.normal1.neg ∧
+    (c.normal1 = ⟨0, 0, 0⟩ ∨ c.normal1.x * c.normal1.x + c.normal1.y * c.normal1.y + c.normal1.z * c.normal1.z = 1) ∧
+    (∀ H : K, (∀ x1 x2 : V3 K, S1 x1 → S2 x2 →
+        (x1.x - x2.x) * c.normal1.x + (x1.y - x2.y) * c.normal1.y + (x1.z - x2.z) * c.normal1.z ≤ H) →
+      (c.point1 = ⟨0, 0, 0⟩ ∧ pos12.act c.point2 = ⟨0, 0, 0⟩) ∨ -c.dist ≤ H) := by
+  letI := fieldNum K sq
+  unfold contactFromEpa3 at hr
+  split at hr
+  · rename_i p1 p2 n why hres
+    simp only [Option.some.injEq] at hr
+    have hout := epa3_result_spec sq S1 S2 supp1 supp2 h1 h2 fuel simplex hsim hlen p1 p2 n why hres
+    have hact : pos12.act (pos12.invAct p2) = p2 := iso3_invAct_act' sq pos12 p2 hu
+    have hrot : pos12.rot (pos12.invRot n.neg) = n.neg := rot_invRot sq pos12 n.neg hu
+    subst hr
+    simp only [hact]
+    refine ⟨hout, ?_, hrot, ?_, ?_⟩
+    · simp only [V3.sub, V3.dot]
+    · obtain ⟨a, b, c', _, _, _, _, _, _, _, _, _, hn⟩ := hout
+      rcases hn with h | ⟨_, h⟩
+      · exact Or.inr (ccwFaceNormal3_spec sq hs a.point b.point c'.point n h).1
+      · exact Or.inl h
+    · intro H hH
+      rcases epa3_depth_le_overlap_along_normal sq hs S1 S2 p1 p2 n hout H hH with h0 | hle
+      · exact Or.inl h0
+      · right
+        simp only [V3.sub, V3.dot]
+        linarith
+  · cases hr
+  · cases hr
+
+example : Unit3 (⟨0, 0, 3/5, 4/5, ⟨1, -2, 3⟩⟩ : Iso3 ℚ) := by unfold Unit3; norm_num
+
 end C02
